@@ -1,15 +1,35 @@
 """C11 - SQL sessions: transactions are atomic, rows map by column name.
-spec/Tx.tla (+TxGen) and spec/RowMap.tla (+RowMapGen) -> replay on sqlx.Conn / sqlc.CachedConn over sqlmock."""
+spec/Tx.tla (+TxGen), spec/RowMap.tla (+RowMapGen) and spec/RowMapHist.tla (+RowMapHistGen: histories of queries into
+declared types that print the same name) -> replay on sqlx.Conn / sqlc.CachedConn over sqlmock."""
 import json
+import threading
 from vlib import core
 
 PKG = "./lib/store/sqlx"
 OVERLAY = {"lib/store/sqlx/zz_verif_c11_test.go": "c11/sqlx_test.go",
            # in-package observation point: counts the Commit()/Rollback() calls made on the Conn's transaction handles
-           "lib/store/sqlx/zz_verif_c11_export_test.go": "c11/export_test.go"}
+           "lib/store/sqlx/zz_verif_c11_export_test.go": "c11/export_test.go",
+           # histories of queries into declared types that print the same name (spec/RowMapHist.tla): the driver part and
+           # two packages that are both called `model` and declare the same type names with other db tags
+           "lib/store/sqlx/zz_verif_c11_hist_test.go": "c11/hist_test.go",
+           "internal/verifc11/a/model/types.go": "c11/model_a.go",
+           "internal/verifc11/b/model/types.go": "c11/model_b.go"}
 RUN = "^TestVerifC11$"
 W = 6
 ROW_CHUNK = 150000   # row-mapping cases per replay run
+HIST_CHUNK = 60000   # row-mapping histories per replay run
+
+# catalogue of the declared destination types of harness/c11 (hist_test.go, model_a.go, model_b.go): declaration id,
+# printed name (reflect.Type.String()), layout = the column that the db tag of field i names.  It is the constant Decl
+# of spec/RowMapHist.tla; the driver checks every Go declaration against the name and layout that the steps carry.
+DECL = [("pkgA.Account", "model.Account", (1, 2)), ("pkgB.Account", "model.Account", (2, 1)),
+        ("pkgA.Member", "model.Member", (1, 2, 3)), ("pkgB.Member", "model.Member", (3, 1, 2)),
+        ("pkgA.Profile", "model.Profile", (1, 2)), ("pkgB.Profile", "model.Profile", (2, 3, 1)),
+        ("fnA.account", "sqlx_test.account", (1, 2)), ("fnB.account", "sqlx_test.account", (2, 1)),
+        ("top.account", "sqlx_test.account", (3, 1)),
+        ("fnA.member", "sqlx_test.member", (1, 2, 3)), ("fnB.member", "sqlx_test.member", (2, 3, 1)),
+        ("fnA.profile", "sqlx_test.profile", (1, 2, 3)), ("fnB.profile", "sqlx_test.profile", (3, 1))]
+HIST_INV = ["FilledByOwnTags", "OrderIndependent", "OneName"]
 
 META = dict(
     text="Exhaustive model-based replay. spec/Tx.tla is the protocol of one Transact call between caller, body, "
@@ -29,11 +49,21 @@ META = dict(
          "tagged/untagged, tag spellings db:\"c\" / db:\"c,type=..,length=..\" / db:\"c,\" / mixed (the column is named by the element before the first comma), names in tags and columns spelled all lower-case / camel (userId) / capitalised (Userid) / all upper-case (a tag names exactly the column with the same spelling; a result set spelled differently from the tags may be read either way), pointer fields, embedded value/pointer structs holding 1 or 2 of the leaf fields, *T, *[]T, *[]*T, slices already holding 0-2 elements) x result sets (all "
          "column orders of all column subsets, an extra column, NULL, 0/1/3 rows) x strict/partial with the SET of "
          "outcomes the statement allows; every case is executed by QueryRow(s)(Partial) through a Conn, a "
-         "transaction session, a prepared statement and sqlc's NoCache pass-through.",
+         "transaction session, a prepared statement and sqlc's NoCache pass-through. spec/RowMapHist.tla adds state carried "
+         "across calls: histories of 2-3 queries in one process into DECLARED destination types that are different types "
+         "and print the same name (model.Account / Member / Profile of two overlaid packages both called `model`; "
+         "function-local and package-level types account / member / profile of the driver) with different field<->tag "
+         "layouts and field counts, in every order, repeated and interleaved, each query through its own access path "
+         "(Conn / transaction / prepared statement / NoCache) into *T, *[]T, *[]*T, strict and partial, column orders "
+         "ascending / descending (thorough: rotations, an extra column): each destination must be filled by ITS OWN tags "
+         "whatever was queried before. All cases of a shard run in one process in an order shuffled by VERIF_SEED.",
     note="Trusted: TLC, sqlmock, database/sql, the driver's counting wrapper around the sqlmock connection, the counting "
-         "wrapper around the handles of commonConn.beginTx (overlaid export file). "
+         "wrapper around the handles of commonConn.beginTx (overlaid export file), the catalogue of declared types in "
+         "checks/c11.py (the driver checks every Go declaration's printed name and db tags against it; a mismatch is a harness problem). "
          "Not covered: ErrBadConn retries of database/sql, a context dying while a statement is in flight, nested transactions, the breaker "
-         "tripping (fresh Conn per behaviour, <= 4 calls), bulk inserter, sqlc's cached query paths. The statement "
+         "tripping (fresh Conn per behaviour, <= 4 calls), bulk inserter, sqlc's cached query paths, queries from several "
+         "goroutines at once; histories use flat all-tagged structs with plain lower-case tags and no NULLs (the shapes of "
+         "RowMap.tla are judged one query at a time); histories of 3 queries use one access path throughout. The statement "
          "is silent on (so both outcomes are allowed or the case is not generated): result error text when the "
          "Rollback itself fails, NULL arriving in a field (error or zero), tagged fields inside an embedded struct "
          "(by name or by position), untagged structs with more columns than fields (not generated), tags whose name element is empty (db:\",opt\") or \"-\" (to orm.go \"-\" is an ordinary column name; not generated), "
@@ -46,7 +76,8 @@ META = dict(
 
 FINISH = dict(rule="transactions: complete TLC enumeration (BFS over the history variable) of all behaviours of "
                    "MaxCalls Transact calls with <= MaxStmts statements per body, every driver fault and every body "
-                   "ending; row mapping: complete enumeration of RowMap.tla's case space for the tier's constants; "
+                   "ending; row mapping: complete enumeration of RowMap.tla's case space for the tier's constants and of "
+                   "RowMapHist.tla's histories (type sequences over each printed name x access paths x destinations); "
                    "every call / every query of every case is compared with the specification")
 
 TX_INV = ["TypeOK", "NilMeansCommitted", "ElseRolledBack", "CommitIffNil", "OneEnding", "NoDangling", "NoTxNoEnd",
@@ -102,6 +133,28 @@ def row_consts(ctx, thorough_part=None):
                 TagStyles=styles, StyleCross='"ptrs"', TagCases=cases, ColCases='"all"', CaseCross='"ptrs"')
 
 
+def hist_consts(ctx):
+    decl = "<<%s>>" % ", ".join('[id |-> "%s", name |-> "%s", lay |-> <<%s>>]' % (i, n, ", ".join(map(str, l)))
+                                for i, n, l in DECL)
+    K = dict(Decl=decl, MaxLen=3, FreeLen=2, Vias='{"conn","tx","stmt","nocache"}', Dests='{"one","vals","ptrs"}')
+    if ctx.quick:
+        K.update(Ords='{"asc","desc"}', Extras="{FALSE}", Rows=2)
+    else:
+        K.update(Ords='{"asc","desc","rotl","rotr"}', Extras="{FALSE,TRUE}", Rows=3)
+    return K
+
+
+def hist_gen(ctx, box):
+    """Histories of spec/RowMapHistGen.tla (runs beside the row-mapping enumeration)."""
+    try:
+        K = hist_consts(ctx)
+        cfg = core.render_cfg(spec="Spec", constants=K, invariants=HIST_INV + ["Emit"])
+        box["cases"] = ctx.tlc("RowMapHistGen", cfg, constants=K, name="rowhist", workers=2, timeout=900).printed
+        box["K"] = K
+    except BaseException as e:   # handed to the main thread
+        box["err"] = e
+
+
 def run(ctx):
     mc(ctx)
     binp = ctx.go_build(PKG, OVERLAY, name="c11drv")
@@ -130,12 +183,18 @@ def run(ctx):
 
     # ---- row mapping
     K = row_consts(ctx)
+    hbox = {}
+    hthread = threading.Thread(target=hist_gen, args=(ctx, hbox))
+    hthread.start()
     # one TLC run checks the invariants of the mapping on every case and prints the case (the generator module
     # only adds Emit to RowMap's state space).  A printed case is a state with picked = TRUE, which is reached
     # by PickShape followed by PickResult only: printed cases are the evidence that both actions fired
     # (TLC's -coverage doubles the cost of this run and would say no more).
     cfg = core.render_cfg(spec="Spec", constants=K, invariants=ROW_INV + ["Emit"])
-    cases = ctx.tlc("RowMapGen", cfg, constants=K, name="rowmap", workers=W, timeout=900).printed
+    try:
+        cases = ctx.tlc("RowMapGen", cfg, constants=K, name="rowmap", workers=W, timeout=900).printed
+    finally:
+        hthread.join()
     if not cases:
         raise core.Infra("vacuous model: RowMapGen printed no case (PickShape / PickResult never taken)")
     ctx.samples += core.sample_of(cases, 2)
@@ -151,6 +210,23 @@ def run(ctx):
             continue
         for key, v in c.items():
             cnt[key] = cnt.get(key, 0) + v
+    # ---- row mapping over histories: declared types that print the same name, queried one after the other
+    hcases = hbox.get("cases") or []
+    if "err" in hbox:
+        e = hbox["err"]
+        first_err = first_err or (e if isinstance(e, core.Infra) else core.Infra("history generator: %r" % (e,)))
+    elif not hcases:
+        first_err = first_err or core.Infra("vacuous model: RowMapHistGen printed no history")
+    ctx.samples += core.sample_of(hcases, 1)
+    for k in range(0, len(hcases), HIST_CHUNK):
+        path, n = ctx.write_cases("rowhist-%d.ndjson" % (k // HIST_CHUNK), hcases[k:k + HIST_CHUNK])
+        try:
+            c, _ = ctx.replay(PKG, OVERLAY, RUN, path, label="rowhist", shards=8, binp=binp)
+        except core.Infra as e:
+            first_err = first_err or e
+            continue
+        for key, v in c.items():
+            cnt[key] = cnt.get(key, 0) + v
     if first_err is not None:
         if not ctx.disagreements:
             raise first_err
@@ -161,7 +237,9 @@ def run(ctx):
         "database/sql forwards the first Commit/Rollback of a *sql.Tx to the driver and answers later ones with ErrTxDone "
         "(which is why ending calls are also counted on the transaction handle itself)",
         "fresh sqlx.Conn (fresh breaker) per behaviour; at most 4 Transact calls, so the breaker never rejects"]
-    ctx.notes["bounds"] = dict(tx=[p[1] for p in plans], rowmap=K)
+    ctx.notes["bounds"] = dict(tx=[p[1] for p in plans], rowmap=K,
+                               rowhist={k: v for k, v in hbox.get("K", {}).items() if k != "Decl"},
+                               rowhist_declared=[list(d) for d in DECL])
 
 
 def vacuity(ctx, cnt):
@@ -178,6 +256,13 @@ def vacuity(ctx, cnt):
             raise core.Infra("vacuous: no tagged destination whose tags and columns are spelled in %s case was replayed" % cs)
     if not cnt.get("rowmap.columns-spelled-differently"):
         raise core.Infra("vacuous: no result set spelling its columns differently from the tags was replayed")
+    for kind in ("pkg", "local"):
+        for rel in ("first-query", "after-same-type", "after-other-type-of-same-name"):
+            if not cnt.get("hist.%s.%s" % (kind, rel)):
+                raise core.Infra("vacuous: no query into a %s-declared type was judged %s in its history" % (kind, rel))
+    for k in ("via-conn", "via-tx", "via-stmt", "via-nocache", "dest-one", "dest-vals", "dest-ptrs"):
+        if not cnt.get("hist." + k):
+            raise core.Infra("vacuous: no history query with %s was replayed" % k)
     for k in ("ctx-cancelled", "ctx-expired", "ctx-bodycancel"):
         if not ctx.counters.get("tx1.tx." + k):
             raise core.Infra("vacuous: no transaction with context scenario %s was judged" % k)
